@@ -121,12 +121,17 @@ def plan(run, rng, tables):
         sizes = SIZES[fmt] if run.thorough() else [s for s in SIZES[fmt] if s <= 1200 or (fmt == "pdb" and s == 10001)]
         mags = MAGS.get(fmt, ["small", "neg", "mixed"])
         variants = VARIANTS.get(fmt, ["plain"])
+        if run.thorough():
+            # besides the boundary sizes: random sizes below the largest boundary, and several models per configuration
+            top = min(max(sizes), 1500)
+            sizes = list(sizes) + sorted({rng.randint(1, top) for _ in range(12)} - set(sizes))
         for i, n in enumerate(sizes):
             for j, mag in enumerate(mags):
                 if n > 1500 and j > 1:
                     continue
                 for v in (variants if (i + j) % 2 == 0 or run.thorough() else variants[:1]):
-                    tasks.append((fmt, n, mag, v, rng.randint(0, 10**9), tables))
+                    for _rep in range(3 if run.thorough() and n <= 200 else 1):
+                        tasks.append((fmt, n, mag, v, rng.randint(0, 10**9), tables))
     return tasks
 
 
